@@ -36,7 +36,16 @@ const (
 	tgtSpeaks    = 9001 // greets at once, reads to FIN, FIN
 	tgtHalfClose = 9002 // greets and half-closes at once, keeps reading to FIN
 	tgtSilent    = 9003 // reads to FIN, closes without a byte
+	tgtSlow      = 9004 // reads to FIN, then streams 8 records 100 ms apart (longer than any handshake timeout), FIN
 )
+
+func slowRecords() []byte {
+	var b []byte
+	for i := 0; i < 8; i++ {
+		b = append(b, []byte(fmt.Sprintf("slow-record-%d;", i))...)
+	}
+	return b
+}
 
 func greeting(port int) []byte { return []byte(fmt.Sprintf("greeting-from-%d", port)) }
 
@@ -90,6 +99,14 @@ func (t *tcpTargets) listen(ip string, port int, out *Out) {
 				rec.received = data
 				rec.gotFin = err == nil
 				t.mu.Unlock()
+				if port == tgtSlow && err == nil {
+					for i := 0; i < 8; i++ {
+						time.Sleep(100 * time.Millisecond)
+						if _, werr := c.Write([]byte(fmt.Sprintf("slow-record-%d;", i))); werr != nil {
+							break
+						}
+					}
+				}
 				if port == tgtEcho && err == nil {
 					rev := make([]byte, len(data))
 					for i := range data {
@@ -238,6 +255,7 @@ type tcpObs struct {
 	tgt        *tgtConnRec
 	sent       int
 	clientPort int
+	srvFin     string // early: the server's FIN reached the client before the client half-closed; late; "-" n/a
 }
 
 func tcpEngine(rng *Rng, n int, out *Out, args map[string]string) {
@@ -249,7 +267,7 @@ func tcpEngine(rng *Rng, n int, out *Out, args map[string]string) {
 	slog.SetDefault(slog.New(panicLogHandler{ev: &curEvents}))
 	tg := &tcpTargets{}
 	for _, ip := range append(append(append([]string{}, e.publicV4...), e.publicV6...), e.forbidden...) {
-		for _, p := range []int{tgtEcho, tgtSpeaks, tgtHalfClose, tgtSilent} {
+		for _, p := range []int{tgtEcho, tgtSpeaks, tgtHalfClose, tgtSilent, tgtSlow} {
 			tg.listen(ip, p, out)
 		}
 	}
@@ -331,12 +349,16 @@ func tcpCase(r *Rng, e *netEnv, tg *tcpTargets, out *Out) {
 		seqIdle := !concurrent && s.end == "idle"
 		token := []byte(fmt.Sprintf("#%06d#", id))
 		data := func(n int) []byte { return append(append([]byte{}, token...), r.Bytes(n)...) }
+		allowSlow := false
 		pickDest := func(forbidden bool) {
 			host := Pick(r, pubs)
 			if forbidden {
 				host = Pick(r, e.forbidden)
 			}
 			port := Pick(r, []int{tgtEcho, tgtSpeaks, tgtHalfClose, tgtSilent})
+			if concurrent && !forbidden && allowSlow && r.Chance(25) {
+				port = tgtSlow
+			}
 			ip := net.ParseIP(host)
 			s.dest = net.JoinHostPort(host, itoa(port))
 			switch {
@@ -355,11 +377,13 @@ func tcpCase(r *Rng, e *netEnv, tg *tcpTargets, out *Out) {
 		switch {
 		case roll < 34: // complete exchange, various chunkings
 			s.kind = "relay"
+			allowSlow = true
 			pickDest(false)
+			allowSlow = false
 			switch r.Intn(4) {
 			case 0: // address alone, then data chunks
 				s.chunks = append(s.chunks, chunkDesc{kind: "d", data: s.destHdr})
-				for i := 0; i < r.Intn(4); i++ {
+				for i := 0; i < 1+r.Intn(4); i++ {
 					s.chunks = append(s.chunks, chunkDesc{kind: "d", data: data(r.Intn(300))})
 				}
 			case 1: // coalesced
@@ -447,6 +471,9 @@ func tcpCase(r *Rng, e *netEnv, tg *tcpTargets, out *Out) {
 			w[r.Intn(s.key.c.saltSize+2+s.key.c.tagSize)] ^= 1 << uint(r.Intn(8))
 			s.rawPrefix = w
 		}
+		if strings.HasSuffix(s.dest, ":9004") {
+			s.end = "fin" // client half-closes first, the target keeps sending for 800 ms
+		}
 		if seqIdle && !strings.HasPrefix(s.kind, "probe") {
 			s.end = "fin" // authenticated streams with a client that stays open are run concurrently (phase B)
 		}
@@ -485,7 +512,11 @@ func tcpCase(r *Rng, e *netEnv, tg *tcpTargets, out *Out) {
 		go func() {
 			defer close(readDone)
 			buf := make([]byte, 32768)
-			conn.SetReadDeadline(time.Now().Add(timeout + 400*time.Millisecond))
+			rdl := timeout + 400*time.Millisecond
+			if strings.HasSuffix(s.dest, ":9004") {
+				rdl = 1600 * time.Millisecond
+			}
+			conn.SetReadDeadline(time.Now().Add(rdl))
 			for {
 				n, err := conn.Read(buf)
 				o.fromServer = append(o.fromServer, buf[:n]...)
@@ -515,6 +546,14 @@ func tcpCase(r *Rng, e *netEnv, tg *tcpTargets, out *Out) {
 			case <-rec0.closed:
 			case <-time.After(60 * time.Millisecond):
 				halfClosed = true
+			}
+		}
+		o.srvFin = "-"
+		if s.end == "idle" {
+			if halfClosed {
+				o.srvFin = "early"
+			} else if o.closeKind == "none" {
+				o.srvFin = "late"
 			}
 		}
 		if (o.closeKind == "none" || halfClosed) && s.end == "idle" {
@@ -644,6 +683,15 @@ func tcpCase(r *Rng, e *netEnv, tg *tcpTargets, out *Out) {
 			cls = "fin@late"
 		}
 		parts = append(parts, "close="+cls)
+		srvFin := o.srvFin
+		if tgt == nil || o.status == "ERR_CONNECT" || strings.HasPrefix(o.status, "ERR_ADDRESS") {
+			srvFin = "-"
+		}
+		parts = append(parts, "srvfin="+srvFin)
+		if srvFin == "early" && tgt != nil && tgt.port != tgtHalfClose {
+			out.Oracle("C06", "the proxy half-closed towards the client (%s, target %s) while the client kept the connection open and the target had not finished", s.kind, tgt.sink)
+			out.Oracle("C02", "FIN reached the client before the target sent one (%s, target %s)", s.kind, tgt.sink)
+		}
 		out.Op(op, strings.Join(parts, " "))
 		out.Stat("conn."+s.kind, 1)
 		out.Stat("conn.end."+s.end, 1)
@@ -738,6 +786,8 @@ func tcpCase(r *Rng, e *netEnv, tg *tcpTargets, out *Out) {
 					}
 				case tgtSpeaks, tgtHalfClose:
 					reply = greeting(tgt.port)
+				case tgtSlow:
+					reply = slowRecords()
 				}
 				if !bytes.Equal(plain, reply) || o.closeKind != "fin" {
 					out.Oracle("C02", "client decrypted %s (close %s), target %s sent %s", fnvDigest(plain), o.closeKind, tgt.sink, fnvDigest(reply))
@@ -817,6 +867,14 @@ func tcpCase(r *Rng, e *netEnv, tg *tcpTargets, out *Out) {
 			obs[i] = runScript(scripts[i])
 		}(i)
 	}
+	closedMid := r.Chance(35)
+	if closedMid {
+		// a reload / shutdown closes the listener while probes are being drained and relays run:
+		// connections that were accepted must be unaffected
+		time.Sleep(timeout / 3)
+		ln.Close()
+		out.Stat("case.listener-closed-mid-run", 1)
+	}
 	wg.Wait()
 	time.Sleep(5 * time.Millisecond)
 	tcs := tg.take()
@@ -827,19 +885,6 @@ func tcpCase(r *Rng, e *netEnv, tg *tcpTargets, out *Out) {
 			<-tc.done
 			if bytes.Contains(tc.received, token) {
 				tgt = tc
-			}
-		}
-		if tgt == nil && scripts[i].dest != "" {
-			// no token seen (e.g. no data reached it): match by destination when unambiguous
-			cands := 0
-			for _, tc := range tcs {
-				if tc.sink == scripts[i].dest && len(tc.received) == 0 {
-					cands++
-					tgt = tc
-				}
-			}
-			if cands != 1 {
-				tgt = nil
 			}
 		}
 		sf := "-"
